@@ -81,6 +81,7 @@ package lunarcontext
 //@   ensures[ok]    err == nil
 //@   ensures[add]   seq: added ==> old(cardOf(p, key)) < maxAllowed && hasS(p, key) && len(setOf(p, key)) == old(cardOf(p, key)) + 1 && setOf(p, key)[old(cardOf(p, key))] == value && forall(j, 0, old(cardOf(p, key)), setOf(p, key)[j] == old(setOf(p, key))[j])
 //@   ensures[full]  seq: !added ==> old(cardOf(p, key)) >= maxAllowed && cardOf(p, key) == old(cardOf(p, key)) && forall(j, 0, cardOf(p, key), setOf(p, key)[j] == old(setOf(p, key))[j])
+//@   ensures[typed] hasS(p, key) && typeis(smapget(cmOf(p).ctx, key), []string)
 //@   ensures[bound] conc: hasS(p, key) && len(setOf(p, key)) <= maxAllowed
 //@   ensures[frame] seq: forall(k, string, k != key ==> (hasS(p, k) <==> old(hasS(p, k))) && smapget(cmOf(p).ctx, k) == old(smapget(cmOf(p).ctx, k)))
 
@@ -96,6 +97,8 @@ package lunarcontext
 //@   ensures[absent-noop]  seq: !old(hasS(p, key)) ==> !hasS(p, key)
 //@   ensures[not-member]   seq: old(hasS(p, key)) && forall(j, 0, old(len(setOf(p, key))), old(setOf(p, key))[j] != value) ==> len(setOf(p, key)) == old(len(setOf(p, key))) && forall(j, 0, len(setOf(p, key)), setOf(p, key)[j] == old(setOf(p, key))[j])
 //@   ensures[removed-first] seq: old(hasS(p, key)) && exists(j, 0, old(len(setOf(p, key))), old(setOf(p, key))[j] == value) ==> len(setOf(p, key)) == old(len(setOf(p, key))) - 1 && old(setOf(p, key))[i] == value && forall(j, 0, i, setOf(p, key)[j] == old(setOf(p, key))[j] && old(setOf(p, key))[j] != value) && forall(j, i, len(setOf(p, key)), setOf(p, key)[j] == old(setOf(p, key))[j+1])
+//@   ensures[typed] hasS(p, key) ==> typeis(smapget(cmOf(p).ctx, key), []string)
+//@   ensures[shrinks-by-one-at-most] seq: cardOf(p, key) <= old(cardOf(p, key)) && cardOf(p, key) >= old(cardOf(p, key)) - 1
 //@   ensures[never-grows] conc: hasS(p, key) ==> len(setOf(p, key)) <= atlock(cardOf(p, key))
 //@   ensures[frame] seq: forall(k, string, k != key ==> (hasS(p, k) <==> old(hasS(p, k))) && smapget(cmOf(p).ctx, k) == old(smapget(cmOf(p).ctx, k)))
 
